@@ -408,7 +408,7 @@ Proof.
   rewrite run_S. unfold run_body at 1.
   assert (negb fresh && negb (all_true w t (inv_of P o')) = false) as ->.
   { destruct fresh; simpl; auto. rewrite HI; auto. }
-  cbn [pick_handler]. rewrite HC. cbn [orb nth_error].
+  cbn [pick_handler]. rewrite HC. cbn [orb nth_error selected_kont].
   replace (run (S f) P w t m true o' subs [FSeq [SAbort]]) with (OBlock KAbort, @nil event, subs) by reflexivity.
   cbv iota beta. apply emit_nil.
 Qed.
@@ -421,7 +421,7 @@ Lemma try_body_resumes : forall f P w t m ib o subs o' body kb c k' y kb' e subs
   (OYield y (FTry false o' body (Some kb') [(c, [SAbort], None)] :: k'), e, subs1).
 Proof.
   intros f P w t m ib o subs o' body kb c k' y kb' e subs1 HI HC HR.
-  rewrite run_S. unfold run_body. rewrite HI. cbn [negb andb pick_handler]. rewrite HC. cbn [orb option_map].
+  rewrite run_S. unfold run_body. rewrite HI. cbn [negb andb pick_handler]. rewrite HC. cbn [orb option_map selected_kont].
   rewrite HR. reflexivity.
 Qed.
 
